@@ -36,6 +36,7 @@ ASSUMPTIONS = ["crash = process kill (page cache survives); power loss / fsync o
                "pinned SHA-256 values cannot be compared with the real remote files offline; the verification logic runs "
                "with payloads whose hashes are known"]
 ANCHORS = {"datasets/_base.py": [(182, 192), (194, 200), (244, 267)]}
+FORMS_HARNESSES = None
 EXPLANATION = "exhaustive fault / crash-point / schedule exploration of the real loader in a closed environment"
 
 ANSWERS = ["good", "corrupt", "truncated", "URLError", "HTTPError", "TimeoutError", "ContentTooShortError"]
